@@ -438,3 +438,251 @@ Lemma pinned_tunnel_reopens_closed_refuted :
     let ts := [ {| t_notify := false; t_pc := TLoad |}; {| t_notify := false; t_pc := TLoad |} ] in
     t_state (fst (trun false 1 ts sched1)) = 3 /\ t_state (fst (trun false 1 ts (sched1 ++ sched2))) = 2.
 Proof. exists ([1; 0; 0] ++ repeat 0 6), [1; 1]. vm_compute. auto. Qed.
+
+(* ================================================================================================ *)
+(* C. reportTrafficStats (repaired code: serialised by a mutex)                                      *)
+(* ================================================================================================ *)
+Open Scope Z_scope.
+Definition rhold (t : rpc) : list rpc :=
+  match t with RLoadCur | RLoadLast _ | RGet _ _ | RUpdate _ _ _ | RStore _ | RUnlock => [t] | _ => [] end.
+
+Definition rrel (base : Z) (sh : rsh) (h : rpc) : Prop :=
+  match h with
+  | RLoadCur | RUnlock => r_stats sh = base + r_last sh
+  | RLoadLast cur => r_stats sh = base + r_last sh /\ r_last sh <= cur <= r_cnt sh
+  | RGet cur l => l = r_last sh /\ l < cur <= r_cnt sh /\ r_stats sh = base + r_last sh
+  | RUpdate cur l m => l = r_last sh /\ l < cur <= r_cnt sh /\ r_stats sh = base + r_last sh /\ m = r_stats sh
+  | RStore cur => r_stats sh = base + cur /\ r_last sh <= cur <= r_cnt sh
+  | _ => False
+  end.
+
+Definition copier_ok (t : rpc) : Prop := match t with CAdd todo => Forall (fun d => 0 <= d) todo | _ => True end.
+
+Definition RInv (base : Z) (s : rsh * list rpc) : Prop :=
+  let sh := fst s in let ls := snd s in
+  0 <= r_last sh <= r_cnt sh /\ zsum (r_calls sh) = r_stats sh - base /\ Forall (fun d => 0 < d) (r_calls sh) /\
+  Forall copier_ok ls /\
+  ( (r_mu sh = false /\ flat_map rhold ls = [] /\ r_stats sh = base + r_last sh)
+  \/ (r_mu sh = true /\ exists h, flat_map rhold ls = [h] /\ rrel base sh h) ).
+
+Lemma zsum_app a x : zsum (a ++ [x]) = zsum a + x.
+Proof. unfold zsum. induction a as [|h t IH]; cbn; [lia|]. fold (zsum (t ++ [x])) in *. fold (zsum t) in *. rewrite IH. lia. Qed.
+
+Lemma rinv_step base s i : RInv base s -> RInv base (sys_step _ _ (rstep true) s i).
+Proof.
+  destruct s as [sh ls]. unfold RInv, sys_step. cbn [fst snd]. intros (Hb & Hsum & Hpos & Hcop & Hph).
+  destruct (nth_error ls i) as [x|] eqn:En; [|cbn [fst snd]; auto 10].
+  destruct (fm_upd2 rhold ls i x En) as (a & b & Ha & Hupd).
+  assert (Hxc : copier_ok x) by (eapply Forall_nth; eauto).
+  destruct x as [| |cur|cur l|cur l m|cur| | |todo]; cbn [rstep].
+  - (* RLock *)
+    destruct (r_mu sh) eqn:Em; cbn [fst snd].
+    + rewrite (upd_nth_same ls i _ En). rewrite Em. auto 10.
+    + destruct Hph as [(_ & Hh & Hs)|(Hm & _)]; [|congruence].
+      cbn [rhold] in Ha. rewrite Ha in Hh. apply app_nil3 in Hh. destruct Hh as (-> & _ & ->).
+      unfold set_mu. cbn [r_cnt r_last r_stats r_mu r_calls].
+      split; [exact Hb|]. split; [exact Hsum|]. split; [exact Hpos|]. split; [apply Forall_upd; [exact Hcop|exact I]|].
+      right. split; [reflexivity|]. exists RLoadCur. split; [rewrite Hupd; reflexivity|exact Hs].
+  - (* RLoadCur *)
+    cbn [fst snd]. destruct Hph as [(_ & Hh & _)|(Hm & h & Hh & Hr)].
+    { cbn [rhold] in Ha. rewrite Ha in Hh. exfalso; eapply app_mid_nil; exact Hh. }
+    cbn [rhold app] in Ha. rewrite Ha in Hh. apply app_single in Hh. destruct Hh as (-> & -> & <-). cbn in Hr.
+    split; [exact Hb|]. split; [exact Hsum|]. split; [exact Hpos|]. split; [apply Forall_upd; [exact Hcop|exact I]|].
+    right. split; [exact Hm|]. eexists. split; [rewrite Hupd; reflexivity|]. cbn. lia.
+  - (* RLoadLast *)
+    destruct Hph as [(_ & Hh & _)|(Hm & h & Hh & Hr)].
+    { cbn [rhold] in Ha. rewrite Ha in Hh. exfalso; eapply app_mid_nil; exact Hh. }
+    cbn [rhold app] in Ha. rewrite Ha in Hh. apply app_single in Hh. destruct Hh as (-> & -> & <-). cbn in Hr.
+    destruct (cur - r_last sh =? 0) eqn:Ed; cbn [fst snd].
+    + apply Z.eqb_eq in Ed.
+      split; [exact Hb|]. split; [exact Hsum|]. split; [exact Hpos|]. split; [apply Forall_upd; [exact Hcop|exact I]|].
+      right. split; [exact Hm|]. eexists. split; [rewrite Hupd; reflexivity|]. cbn. lia.
+    + apply Z.eqb_neq in Ed.
+      split; [exact Hb|]. split; [exact Hsum|]. split; [exact Hpos|]. split; [apply Forall_upd; [exact Hcop|exact I]|].
+      right. split; [exact Hm|]. eexists. split; [rewrite Hupd; reflexivity|]. cbn. lia.
+  - (* RGet *)
+    cbn [fst snd]. destruct Hph as [(_ & Hh & _)|(Hm & h & Hh & Hr)].
+    { cbn [rhold] in Ha. rewrite Ha in Hh. exfalso; eapply app_mid_nil; exact Hh. }
+    cbn [rhold app] in Ha. rewrite Ha in Hh. apply app_single in Hh. destruct Hh as (-> & -> & <-). cbn in Hr.
+    split; [exact Hb|]. split; [exact Hsum|]. split; [exact Hpos|]. split; [apply Forall_upd; [exact Hcop|exact I]|].
+    right. split; [exact Hm|]. eexists. split; [rewrite Hupd; reflexivity|]. cbn. lia.
+  - (* RUpdate *)
+    cbn [fst snd]. destruct Hph as [(_ & Hh & _)|(Hm & h & Hh & Hr)].
+    { cbn [rhold] in Ha. rewrite Ha in Hh. exfalso; eapply app_mid_nil; exact Hh. }
+    cbn [rhold app] in Ha. rewrite Ha in Hh. apply app_single in Hh. destruct Hh as (-> & -> & <-). cbn in Hr.
+    cbn [r_cnt r_last r_stats r_mu r_calls].
+    split; [exact Hb|]. split; [rewrite zsum_app; lia|].
+    split; [apply Forall_app; split; [exact Hpos|constructor; [lia|constructor]]|].
+    split; [apply Forall_upd; [exact Hcop|exact I]|].
+    right. split; [exact Hm|]. eexists. split; [rewrite Hupd; reflexivity|]. cbn. lia.
+  - (* RStore *)
+    cbn [fst snd]. destruct Hph as [(_ & Hh & _)|(Hm & h & Hh & Hr)].
+    { cbn [rhold] in Ha. rewrite Ha in Hh. exfalso; eapply app_mid_nil; exact Hh. }
+    cbn [rhold app] in Ha. rewrite Ha in Hh. apply app_single in Hh. destruct Hh as (-> & -> & <-). cbn in Hr.
+    cbn [r_cnt r_last r_stats r_mu r_calls].
+    split; [lia|]. split; [exact Hsum|]. split; [exact Hpos|]. split; [apply Forall_upd; [exact Hcop|exact I]|].
+    right. split; [exact Hm|]. eexists. split; [rewrite Hupd; reflexivity|]. cbn. lia.
+  - (* RUnlock *)
+    cbn [fst snd]. destruct Hph as [(_ & Hh & _)|(Hm & h & Hh & Hr)].
+    { cbn [rhold] in Ha. rewrite Ha in Hh. exfalso; eapply app_mid_nil; exact Hh. }
+    cbn [rhold app] in Ha. rewrite Ha in Hh. apply app_single in Hh. destruct Hh as (-> & -> & <-). cbn in Hr.
+    unfold set_mu. cbn [r_cnt r_last r_stats r_mu r_calls].
+    split; [exact Hb|]. split; [exact Hsum|]. split; [exact Hpos|]. split; [apply Forall_upd; [exact Hcop|exact I]|].
+    left. split; [reflexivity|]. split; [rewrite Hupd; reflexivity|exact Hr].
+  - (* RDone *) cbn [fst snd]. rewrite (upd_nth_same ls i _ En). auto 10.
+  - (* CAdd *)
+    destruct todo as [|d todo]; cbn [fst snd].
+    { rewrite (upd_nth_same ls i _ En). auto 10. }
+    cbn in Hxc. inversion Hxc as [|d' t' Hd Ht]; subst.
+    cbn [rhold] in Ha. cbn [r_cnt r_last r_stats r_mu r_calls].
+    assert (Hfm : flat_map rhold (upd_nth i (CAdd todo) ls) = flat_map rhold ls) by (rewrite Hupd, Ha; reflexivity).
+    split; [lia|]. split; [exact Hsum|]. split; [exact Hpos|]. split; [apply Forall_upd; [exact Hcop|exact Ht]|].
+    destruct Hph as [(Hm & Hh & Hs)|(Hm & h & Hh & Hr)].
+    + left. split; [exact Hm|]. split; [rewrite Hfm; exact Hh|exact Hs].
+    + right. split; [exact Hm|]. exists h. split; [rewrite Hfm; exact Hh|].
+      destruct h; cbn in *; try exact Hr; lia.
+Qed.
+
+Lemma rinv_init base ts : forallb r_initial ts = true -> RInv base (rinit base, ts).
+Proof.
+  intros Hi. rewrite forallb_forall in Hi. unfold RInv. cbn [fst snd rinit r_cnt r_last r_stats r_mu r_calls].
+  split; [lia|]. split; [cbn; lia|]. split; [constructor|]. split.
+  - rewrite Forall_forall. intros t Ht. apply Hi in Ht. destruct t; cbn in Ht; try discriminate; try exact I.
+    cbn. rewrite Forall_forall. rewrite forallb_forall in Ht. intros d Hd. apply Ht in Hd. apply Z.leb_le in Hd. exact Hd.
+  - left. split; [reflexivity|]. split; [|lia].
+    induction ts as [|t r IH]; cbn; [reflexivity|].
+    assert (Ht : r_initial t = true) by (apply Hi; left; reflexivity).
+    destruct t; cbn in Ht; try discriminate; cbn; apply IH; intros y Hy; apply Hi; right; exact Hy.
+Qed.
+
+Definition r_finished (t : rpc) : bool := match t with RDone | CAdd [] => true | _ => false end.
+
+(* ANY number of concurrent reporters (cleanup handler, ticks, final report) and copy loops, ANY schedule *)
+Theorem traffic_once_all_schedules base ts sched :
+  forallb r_initial ts = true ->
+  let s := rrun true base ts sched in
+  (* what cloud control was given is the sum of the reported deltas, every delta is positive, and it never exceeds the counter *)
+  r_stats (fst s) - base = zsum (r_calls (fst s)) /\ Forall (fun d => 0 < d) (r_calls (fst s)) /\
+  r_stats (fst s) - base <= r_cnt (fst s) /\
+  (* whenever no report is in progress, the reported total is exactly the last-reported mark *)
+  (r_mu (fst s) = false -> r_stats (fst s) - base = r_last (fst s) /\ r_last (fst s) <= r_cnt (fst s)) /\
+  (* when every thread has finished, no report is in progress *)
+  (forallb r_finished (snd s) = true -> r_mu (fst s) = false).
+Proof.
+  intros Hi s.
+  assert (HI : RInv base s).
+  { unfold s, rrun. apply inv_all_schedules; [intros s0 i; apply rinv_step|apply rinv_init; exact Hi]. }
+  destruct s as [sh ls]. destruct HI as (Hb & Hsum & Hpos & Hcop & Hph). cbn [fst snd] in *.
+  split; [lia|]. split; [exact Hpos|]. split; [|split].
+  - destruct Hph as [(Hm & Hh & Hs)|(Hm & h & Hh & Hr)]; [lia|]. destruct h; cbn in Hr; try contradiction; lia.
+  - intros Hm. destruct Hph as [(_ & Hh & Hs)|(Hm' & _)]; [lia|congruence].
+  - intros Hf. destruct Hph as [(Hm & _)|(Hm & h & Hh & Hr)]; [exact Hm|].
+    exfalso. assert (Hne : flat_map rhold ls <> []) by (rewrite Hh; discriminate).
+    apply fm_nonempty in Hne. destruct Hne as (x & Hx & Hfx). rewrite forallb_forall in Hf. specialize (Hf x Hx).
+    destruct x; cbn in Hf, Hfx; try discriminate; try congruence.
+Qed.
+
+(* a report that runs with nobody else moving (e.g. the last one, after the copy loops have ended) brings the reported
+   total up to the counter exactly *)
+Lemma report_alone_complete base sh :
+  r_mu sh = false -> r_stats sh = base + r_last sh -> r_last sh <= r_cnt sh ->
+  let sh' := report_alone true sh in
+  r_stats sh' = base + r_cnt sh /\ r_last sh' = r_cnt sh /\ r_cnt sh' = r_cnt sh /\ r_mu sh' = false.
+Proof.
+  intros Hm Hs Hl. destruct sh as [cnt last stats mu calls]. cbn in Hm, Hs, Hl. subst mu.
+  unfold report_alone, run, sys_step. cbn [repeat fold_left fst snd nth_error rstep r_mu set_mu upd_nth r_cnt r_last r_stats r_calls].
+  destruct (cnt - last =? 0) eqn:Ed; cbn [repeat fold_left fst snd nth_error rstep r_mu set_mu upd_nth r_cnt r_last r_stats r_calls].
+  - apply Z.eqb_eq in Ed. repeat split; lia.
+  - repeat split; lia.
+Qed.
+
+(* the pinned code (no mutex): cleanup handler and final report both compute the same delta: 100 bytes counted as 200 *)
+Lemma pinned_traffic_double_report_refuted :
+  exists sched,
+    let s := rrun false 0 [CAdd [100]; RLock; RLock] sched in
+    r_cnt (fst s) = 100 /\ r_stats (fst s) = 200 /\ r_calls (fst s) = [100; 100] /\ forallb r_finished (snd s) = true.
+Proof. exists ([0] ++ [1;1;1; 2;2;2] ++ repeat 1 5 ++ repeat 2 5). vm_compute. auto. Qed.
+
+(* pinned code, second shape: a stale `current` makes the delta negative (the reported total goes DOWN) *)
+Lemma pinned_traffic_negative_delta_refuted :
+  exists sched,
+    let s := rrun false 0 [CAdd [100; 50]; RLock; RLock] sched in
+    exists d, In d (r_calls (fst s)) /\ d < 0.
+Proof. exists ([0] ++ [1;1] ++ [0] ++ repeat 2 8 ++ repeat 1 6). vm_compute. exists (-50). split; [auto|reflexivity]. Qed.
+Close Scope Z_scope.
+
+(* ================================================================================================ *)
+(* D. StreamProcessor: operations after Close fail cleanly; the reader is closed once                *)
+(* ================================================================================================ *)
+Section StreamProof.
+  Variable reads : nat.
+
+  Definition PInv (s : psh * list ppc) : Prop :=
+    (p_reader (fst s) = true /\ p_rclose (fst s) = 0) \/ (p_reader (fst s) = false /\ p_rclose (fst s) = 1).
+
+  Lemma pinv_step s i : PInv s -> PInv (sys_step _ _ (pstep reads) s i).
+  Proof.
+    destruct s as [sh ls]. unfold PInv, sys_step. cbn [fst snd]. intros H.
+    destruct (nth_error ls i) as [x|] eqn:En; [|exact H].
+    destruct x; cbn [pstep];
+      repeat match goal with |- context [if ?c then _ else _] => destruct c eqn:? end;
+      try (destruct left); cbn [fst snd p_reader p_rclose]; auto;
+      repeat match goal with |- context [if ?c then _ else _] => destruct c eqn:? end; cbn [fst snd p_reader p_rclose]; auto.
+    all: destruct H as [[Hr Hc]|[Hr Hc]]; try congruence; right; split; [reflexivity|lia].
+  Qed.
+
+  Theorem reader_closed_at_most_once ts sched :
+    let s := run _ _ (pstep reads) (pinit, ts) sched in p_rclose (fst s) <= 1.
+  Proof.
+    intros s. assert (HI : PInv s).
+    { unfold s. apply inv_all_schedules; [intros s0 i; apply pinv_step|]. left. cbn. auto. }
+    destruct HI as [[_ H]|[_ H]]; lia.
+  Qed.
+
+  (* an operation that has not taken the read lock yet when the processor is already closed never reaches the reader:
+     in every continuation it is waiting, or has returned an error; it never succeeds and never panics *)
+  Definition QInv (j : nat) (s : psh * list ppc) : Prop :=
+    p_closed (fst s) = true /\
+    (nth_error (snd s) j = Some OStart \/ nth_error (snd s) j = Some OHaveLock \/ nth_error (snd s) j = Some (ORet false)).
+
+  Lemma closed_monotone t sh : p_closed sh = true -> p_closed (snd (pstep reads t sh)) = true.
+  Proof.
+    intros H. destruct t; cbn [pstep];
+      repeat match goal with |- context [if ?c then _ else _] => destruct c eqn:? end;
+      try (destruct left); cbn [snd p_closed]; auto;
+      repeat match goal with |- context [if ?c then _ else _] => destruct c eqn:? end; cbn [snd p_closed]; auto.
+  Qed.
+
+  Lemma qinv_step j s i : QInv j s -> QInv j (sys_step _ _ (pstep reads) s i).
+  Proof.
+    destruct s as [sh ls]. unfold QInv, sys_step. cbn [fst snd]. intros [Hc Hj].
+    destruct (nth_error ls i) as [x|] eqn:En; [|cbn [fst snd]; auto].
+    pose proof (closed_monotone x sh Hc) as Hmono.
+    destruct (pstep reads x sh) as [x' sh'] eqn:Es. cbn [fst snd] in *. split; [exact Hmono|].
+    destruct (Nat.eq_dec i j) as [->|Hne].
+    - assert (Hlen : j < length ls) by (apply nth_error_Some; congruence).
+      rewrite nth_error_upd_nth_same by exact Hlen.
+      rewrite En in Hj.
+      destruct Hj as [Hj|[Hj|Hj]]; inversion Hj; subst x; cbn [pstep] in Es.
+      + destruct (p_rlock sh); inversion Es; auto.
+      + destruct (p_dlock sh); [inversion Es; auto|]. rewrite Hc in Es. inversion Es; auto.
+      + inversion Es; auto.
+    - rewrite nth_error_upd_nth_other by exact Hne. exact Hj.
+  Qed.
+
+  Theorem ops_after_close_fail_cleanly j sh ls sched :
+    p_closed sh = true -> nth_error ls j = Some OStart ->
+    let s := run _ _ (pstep reads) (sh, ls) sched in
+    nth_error (snd s) j = Some OStart \/ nth_error (snd s) j = Some OHaveLock \/ nth_error (snd s) j = Some (ORet false).
+  Proof.
+    intros Hc Hj s. assert (HI : QInv j s).
+    { unfold s. apply inv_all_schedules; [intros s0 i; apply qinv_step|]. split; [exact Hc|left; exact Hj]. }
+    exact (proj2 HI).
+  Qed.
+End StreamProof.
+
+(* an operation that passed its closed-check BEFORE a concurrent Close nils the reader calls a nil interface:
+   onClose writes ps.reader = nil without holding readLock *)
+Lemma read_concurrent_with_close_panics_refuted :
+  exists sched, p_panics (fst (run _ _ (pstep 2) (pinit, [OStart; PClose]) sched)) = 1.
+Proof. exists ([0;0;0;0] ++ repeat 1 5 ++ [0]). vm_compute. reflexivity. Qed.
